@@ -876,11 +876,15 @@ impl SetU64 {
                 let x = SetU64(ptr);
                 (*x.0).b.cap = cap;
                 (*x.0).b.bits = if bits == 0 {
-                    let mut b = 0;
-                    while b <= 64 {
-                        b = crate::rand::rand64(cap, bits);
+                    // One draw; a draw that collides with the format selector
+                    // values 0..=64 is moved past them rather than redrawn, because
+                    // the generator may be a pure function of its arguments.
+                    let b = crate::rand::rand64(cap, bits);
+                    if b <= 64 {
+                        b + 65
+                    } else {
+                        b
                     }
-                    b
                 } else {
                     bits
                 };
@@ -1062,13 +1066,15 @@ impl SetU64 {
                     // changing the "bits" is $O(N)$, so it's worth
                     // a high O(1) cost to reduce collisions.
                     let had_zero = p_remove(s.bits, a, 0);
-                    loop {
-                        let i: u64 = crate::rand::rand64(s.cap, s.bits);
-                        if i > 64 && !a.iter().any(|&v| v == i) {
-                            s.bits = i;
-                            break;
-                        }
+                    // One draw, then scan upward to the first value that is usable:
+                    // redrawing could loop forever when the generator is a pure
+                    // function of its arguments, and at most `cap + 65` values
+                    // are unusable.
+                    let mut i: u64 = crate::rand::rand64(s.cap, s.bits);
+                    while i <= 64 || a.iter().any(|&v| v == i) {
+                        i = i.wrapping_add(1);
                     }
+                    s.bits = i;
                     if had_zero {
                         a[p_insert(s.bits, a, 0)] = s.bits;
                     }
